@@ -254,4 +254,31 @@ example :
     ipMapping st = [("9.9.9.9".toList, "10.230.230.1".toList), ("1.2.3.4".toList, "10.230.230.2".toList)] := by
   decide
 
+/-! ### the allow list is an ORDERED dict
+
+Which budget a line uses up is decided by the order of the filters: the FIRST pattern (in dict order) that the line
+contains.  `core/filters.py` (fix 5473340) makes that order the order of registration; the correspondence compares the
+glue path under every hash seed with this function applied to the registration-ordered list. -/
+
+theorem allowStage_first_match (al : List (Str × Int)) (line : Str) :
+    (∀ k n, al.find? (fun kv => contains kv.1 line) = some (k, n) →
+      (allowStage al line).2 = some line ∧
+      (allowStage al line).1 = (if n - 1 = 0 then al.filter (fun kv => kv.1 != k)
+                                else al.map (fun kv => if kv.1 == k then (k, n - 1) else kv))) ∧
+    (al.find? (fun kv => contains kv.1 line) = none → allowStage al line = (al, none)) := by
+  constructor
+  · intro k n h; simp [allowStage, h]
+  · intro h; simp [allowStage, h]
+
+/-- two patterns with budget 1 compete for the lower line: in the order alpha, beta the upper line is dropped, in
+the order beta, alpha it is kept (the two answers the implementation gave under different hash seeds before the fix) -/
+example :
+    let E : Env := ⟨fun _ => [], fun _ => [], fun _ => [], fun _ => false, fun _ => [], fun _ => false, fun _ => [], id, {}⟩
+    let cfg : Cfg := ⟨"h.d".toList, false, false, false, false, [], []⟩
+    let ls := ["only alpha here".toList, "alpha and beta".toList]
+    (cleanContent E cfg {} ⟨["password".toList], true, some [("alpha".toList, 1), ("beta".toList, 1)], ls⟩).2 = ["alpha and beta".toList] ∧
+    (cleanContent E cfg {} ⟨["password".toList], true, some [("beta".toList, 1), ("alpha".toList, 1)], ls⟩).2 = ls := by
+  decide
+
 end IV.CleanState
+
